@@ -1,14 +1,130 @@
-//! freq family: to be written (see /verif/AGENT_GUIDE.md).
-use crate::{Family, Ob, PANIC};
+//! Frequent Items family (C07; FI legs of the codec properties): replays a case on
+//! `FrequentItemsSketch<i64>` through the public API only.
+//!
+//! cfg = [] ; 8 slots; ops (a = arguments):
+//!  0 new          slot max_map_size                 -> []
+//!  1 update       slot item weight hash             -> []            (hash is for the model only)
+//!  2 query        slot item hash                    -> [estimate, lower, upper, maximum_error]
+//!  3 stats        slot                              -> [maximum_error, total_weight, num_active, is_empty,
+//!                                                       lg_cur, cur_cap, lg_max, max_cap]
+//!  4 merge        dst src                           -> []            (src is cloned first, dst == src allowed)
+//!  5 frequent     slot error_type mode threshold    -> [maximum_error, item, est, ub, lb, ...] rows sorted by item
+//!                   error_type 0 = NoFalseNegatives, 1 = NoFalsePositives; mode 0 = frequent_items(et),
+//!                   mode 1 = frequent_items_with_threshold(et, threshold)
+//!  6 serialize    slot                              -> bytes
+//!  7 roundtrip    src dst                           -> [1] and slots[dst] = deserialize(serialize(slots[src])) | ERR
+//!  8 deserialize  slot k hash_1..hash_k bytes...    -> [1] | ERR     (hashes of the image's items, model only)
+//!  9 reset        slot                              -> []
+//! 10 epsilon      slot                              -> [bits of epsilon()]
+use datasketches::frequencies::{ErrorType, FrequentItemsSketch};
 
-pub struct Fam;
+use crate::{fbits, Family, Ob, ERR, PANIC};
+
+type Sk = FrequentItemsSketch<i64>;
+
+pub struct Fam {
+    slots: Vec<Option<Sk>>,
+}
+
+impl Fam {
+    fn get(&self, i: i128) -> &Sk {
+        self.slots[i as usize].as_ref().expect("empty slot")
+    }
+
+    fn get_mut(&mut self, i: i128) -> &mut Sk {
+        self.slots[i as usize].as_mut().expect("empty slot")
+    }
+}
 
 impl Family for Fam {
     fn new(_cfg: &[i128]) -> Self {
-        Fam
+        Fam { slots: vec![None; 8] }
     }
 
-    fn step(&mut self, _code: i64, _a: &[i128]) -> Ob {
-        vec![PANIC]
+    fn step(&mut self, code: i64, a: &[i128]) -> Ob {
+        match code {
+            0 => {
+                self.slots[a[0] as usize] = Some(Sk::new(a[1] as usize));
+                vec![]
+            }
+            1 => {
+                self.get_mut(a[0]).update_with_count(a[1] as i64, a[2] as u64);
+                vec![]
+            }
+            2 => {
+                let s = self.get(a[0]);
+                let x = a[1] as i64;
+                vec![
+                    s.estimate(&x) as i128,
+                    s.lower_bound(&x) as i128,
+                    s.upper_bound(&x) as i128,
+                    s.maximum_error() as i128,
+                ]
+            }
+            3 => {
+                let s = self.get(a[0]);
+                vec![
+                    s.maximum_error() as i128,
+                    s.total_weight() as i128,
+                    s.num_active_items() as i128,
+                    s.is_empty() as i128,
+                    s.lg_cur_map_size() as i128,
+                    s.current_map_capacity() as i128,
+                    s.lg_max_map_size() as i128,
+                    s.maximum_map_capacity() as i128,
+                ]
+            }
+            4 => {
+                let other = self.get(a[1]).clone();
+                self.get_mut(a[0]).merge(&other);
+                vec![]
+            }
+            5 => {
+                let s = self.get(a[0]);
+                let et = if a[1] == 0 { ErrorType::NoFalseNegatives } else { ErrorType::NoFalsePositives };
+                let mut rows = if a[2] == 0 {
+                    s.frequent_items(et)
+                } else {
+                    s.frequent_items_with_threshold(et, a[3] as u64)
+                };
+                rows.sort_by_key(|r| *r.item());
+                let mut ob = vec![s.maximum_error() as i128];
+                for r in rows {
+                    ob.push(*r.item() as i128);
+                    ob.push(r.estimate() as i128);
+                    ob.push(r.upper_bound() as i128);
+                    ob.push(r.lower_bound() as i128);
+                }
+                ob
+            }
+            6 => self.get(a[0]).serialize().iter().map(|b| *b as i128).collect(),
+            7 => {
+                let bytes = self.get(a[0]).serialize();
+                match Sk::deserialize(&bytes) {
+                    Ok(s) => {
+                        self.slots[a[1] as usize] = Some(s);
+                        vec![1]
+                    }
+                    Err(_) => vec![ERR],
+                }
+            }
+            8 => {
+                let k = a[1] as usize;
+                let bytes: Vec<u8> = a[2 + k..].iter().map(|b| *b as u8).collect();
+                match Sk::deserialize(&bytes) {
+                    Ok(s) => {
+                        self.slots[a[0] as usize] = Some(s);
+                        vec![1]
+                    }
+                    Err(_) => vec![ERR],
+                }
+            }
+            9 => {
+                self.get_mut(a[0]).reset();
+                vec![]
+            }
+            10 => vec![fbits(self.get(a[0]).epsilon())],
+            _ => vec![PANIC],
+        }
     }
 }
